@@ -564,7 +564,7 @@ func tieBreakCase(k *mon.Case) {
 func main() {
 	mon.Main(mon.Options{
 		Property: "C03", Level: "exploration",
-		Rule: "node states = random histories (txs, assets, events, validator-set changes, skipped slots, finality advancing) on a real Chain+Executer; per state one valid successor and ~50 single-rule mutants of it (each named after the rule it violates), driven through Executer.process (when fork choice sees a direct successor) and through the sync path Block.Validate+processValidated; non-trivial+distinct = (mutant class, path, rejection class, state shape) where the mutant was actually decided",
+		Rule: "node states = random histories (txs, assets, events, validator-set changes, skipped slots, finality advancing) on a real Chain+Executer; per state one valid successor and ~50 single-rule mutants of it (each named after the rule it violates), driven through Executer.process (when fork choice sees a direct successor) and through the sync path Block.Validate+processValidated; stream tiebreak: the tip was received after its slot and a sibling from the next slot arrives inside its own (real) slot, so the fork choice takes the tie-break branch; static-rule mutants of that sibling must leave tip, DB, application state and events untouched; non-trivial+distinct = (mutant class, path, rejection class, state shape) where the mutant was actually decided",
 		Assumptions: []string{
 			"application side effects are those of the scripted ABI (state root = hash chain over block content); its Commit refuses a wrong expectedStateRoot",
 			"callers of processValidated run Block.Validate first (as fast sync and block sync do)",
